@@ -81,6 +81,9 @@ def run_circular_binseg(
         anomaly_start_candidates, anomaly_end_candidates = make_anomaly_intervals(
             start, end, min_segment_length
         )
+        if anomaly_start_candidates.size == 0:
+            # No inner interval fits strictly inside this interval: nothing to score.
+            continue
         intervals = np.column_stack(
             (
                 np.repeat(start, anomaly_start_candidates.size),
